@@ -69,7 +69,12 @@ fn expected_since(recs: &[Rec], since: u64) -> BTreeMap<String, u8> {
     // every (db,key) with a record at or after `since`, labelled with the kind of its most recent record
     let mut latest: BTreeMap<String, (u64, u8)> = BTreeMap::new();
     for r in recs {
-        let k = format!("{}_{}", r.db, r.key);
+        // update / remove records belong to a (database, key); create-db and snapshot records belong to the database
+        let k = match r.op {
+            2 => format!("{}_create-db", r.db),
+            3 => format!("{}_snapshot", r.db),
+            _ => format!("{}_{}", r.db, r.key),
+        };
         match latest.get(&k) {
             Some((t, _)) if *t > r.time => {}
             _ => {
